@@ -23,11 +23,20 @@
     `U128_cmp_lt_zero_iff`, `U128_cmp_ge_zero_iff`, `U128_cmp_gt_zero_iff`, `U128_cmp_le_zero_iff`
   * `U128_divK_eq` / `U128_divK_spec` (K = 10, 100, 1000, 10000, 1e8, 1e19):
       ∃ q r, Gen.U128.divK n = .ok (q, r) ∧ q.toNat = n.toNat / K ∧ r.toNat = n.toNat % K
-    and the `@[spec]` Hoare triples `U128_divK_triple`.
+    and the `@[spec]` Hoare triples `U128_divK_triple`; `U128_divSmall` is the generic body
+    (also the `o.w1 = 0` branch of `uint128.div`); `Go.bits.Div64_ok`, `Go.triple_of_ok`.
+  * `U128_mul_toNat`     : (mul n o).toNat = n.toNat * o.toNat                    (U256)
+  * `U128_mul1e38_toNat` : (mul1e38 n).toNat = n.toNat * 10^38                    (U256)
+  * `Go.shl_toNat`, `Go.shr_toNat` (UInt64, any count), `UInt64.toNat_or_of_disjoint`
+  * `U128_lsh_toNat`     : (lsh n o).toNat = (n.toNat * 2^o.toNat) % 2^128   (every o, also > 128)
+  * `U128_rsh_toNat`     : (rsh n o).toNat = n.toNat / 2^o.toNat             (every o, also > 128)
+  * `U128_or64_toNat`    : (or64 n o).toNat = n.toNat ||| o.toNat; `U128_or64_toNat_of_disjoint`
+  * `uint128PowersOf10_toNat` : i < 39 → uint128PowersOf10[i].toNat = 10^i; `uint128PowersOf10_vget`
 -/
 import Std.Tactic.Do
 import Mathlib.Tactic.Ring
 import Mathlib.Tactic.Linarith
+import Mathlib.Tactic.IntervalCases
 import D128.Gen.Int
 
 set_option autoImplicit false
@@ -304,8 +313,7 @@ theorem Go.bits.Div64_ok (hi lo y : UInt64) (h : hi.toNat < y.toNat) :
 theorem Go.triple_of_ok {α : Type} {f : Go.GoM α} {v : α} (h : f = .ok v) {Q : α → Prop}
     (hq : Q v) : ⦃⌜True⌝⦄ f ⦃⇓ r => ⌜Q r⌝⦄ := by
   subst h
-  show ⦃⌜True⌝⦄ (pure v : Go.GoM α) ⦃⇓ r => ⌜Q r⌝⦄
-  mvcgen
+  exact Triple.pure (m := Go.GoM) v (by simp [hq])
 
 /-- The common body of `uint128.div10 … div1e19` and of the 64-bit-divisor branch of
 `uint128.div`: schoolbook division of a two-word number by a one-word divisor `d ≠ 0`. -/
@@ -417,3 +425,261 @@ theorem U128_div1e19_spec (n : U128) :
     ⦃⇓ x => ⌜x.1.toNat = n.toNat / 10^19 ∧ x.2.toNat = n.toNat % 10^19⌝⦄ := by
   obtain ⟨q, r, e, hq, hr⟩ := U128_div1e19_spec n
   exact Go.triple_of_ok e ⟨hq, hr⟩
+
+/-! ## mul / mul1e38 -/
+
+
+theorem Go.bits.Mul64_spec' (x y : UInt64) :
+    (Go.bits.Mul64 x y).2.toNat + (Go.bits.Mul64 x y).1.toNat * 2^64 = x.toNat * y.toNat
+    ∧ x.toNat * y.toNat ≤ (2^64 - 1) * (2^64 - 1) := by
+  refine ⟨Go.bits.Mul64_spec x y, ?_⟩
+  have hx := x.toNat_lt; have hy := y.toNat_lt
+  exact Nat.mul_le_mul (by omega) (by omega)
+
+/-- the schoolbook 2×2-word multiplication shared by `uint128.mul` and `uint128.mul1e38`:
+after unfolding, the goal is `(U256.mk …).toNat = (a0 + a1·2^64) * (b0 + b1·2^64)`. -/
+macro "u128_mul_core " a0:term:max a1:term:max b0:term:max b1:term:max : tactic => `(tactic| (
+  simp only [U256.toNat, Id.run, pure]
+  obtain ⟨m00, b00⟩ := Go.bits.Mul64_spec' $a0 $b0
+  obtain ⟨m10, b10⟩ := Go.bits.Mul64_spec' $a1 $b0
+  obtain ⟨m01, b01⟩ := Go.bits.Mul64_spec' $a0 $b1
+  obtain ⟨m11, b11⟩ := Go.bits.Mul64_spec' $a1 $b1
+  have e : (($a0).toNat + ($a1).toNat * 2^64) * (($b0).toNat + ($b1).toNat * 2^64)
+      = ($a0).toNat * ($b0).toNat + (($a1).toNat * ($b0).toNat + ($a0).toNat * ($b1).toNat) * 2^64
+        + ($a1).toNat * ($b1).toNat * 2^128 := by ring
+  rw [e]
+  generalize ($a0).toNat * ($b0).toNat = p00 at *
+  generalize ($a1).toNat * ($b0).toNat = p10 at *
+  generalize ($a0).toNat * ($b1).toNat = p01 at *
+  generalize ($a1).toNat * ($b1).toNat = p11 at *
+  generalize Go.bits.Mul64 $a0 $b0 = M00 at *
+  generalize Go.bits.Mul64 $a1 $b0 = M10 at *
+  generalize Go.bits.Mul64 $a0 $b1 = M01 at *
+  generalize Go.bits.Mul64 $a1 $b1 = M11 at *
+  obtain ⟨a1, c1⟩ := Go.bits.Add64_spec M00.1 M10.2 0 (by simp)
+  obtain ⟨a2, c2⟩ := Go.bits.Add64_spec M10.1 M01.1 _ c1
+  obtain ⟨a3, c3⟩ := Go.bits.Add64_spec (Go.bits.Add64 M00.1 M10.2 0).1 M01.2 0 (by simp)
+  obtain ⟨a4, c4⟩ := Go.bits.Add64_spec
+    (Go.bits.Add64 M10.1 M01.1 (Go.bits.Add64 M00.1 M10.2 0).2).1 M11.2 _ c3
+  obtain ⟨a5, c5⟩ := Go.bits.Add64_spec M11.1
+    (Go.bits.Add64 M10.1 M01.1 (Go.bits.Add64 M00.1 M10.2 0).2).2 _ c4
+  simp only [UInt64.toNat_zero] at a1 a3
+  omega))
+
+@[simp] theorem U128_mul_toNat (n o : U128) :
+    (Gen.U128.mul n o).toNat = n.toNat * o.toNat := by
+  unfold Gen.U128.mul
+  simp only [U128.toNat]
+  u128_mul_core n.w0 n.w1 o.w0 o.w1
+
+private theorem U128_mul1e38_aux (n : U128) (b0 b1 : UInt64) (h0 : b0 = 687399551400673280)
+    (h1 : b1 = 5421010862427522170) :
+    (Gen.U128.mul1e38 n).toNat = n.toNat * (b0.toNat + b1.toNat * 2^64) := by
+  unfold Gen.U128.mul1e38
+  rw [← h0, ← h1]
+  simp only [U128.toNat]
+  u128_mul_core n.w0 n.w1 b0 b1
+
+@[simp] theorem U128_mul1e38_toNat (n : U128) :
+    (Gen.U128.mul1e38 n).toNat = n.toNat * 10^38 := by
+  have h38 : (10:Nat)^38 = (687399551400673280 : UInt64).toNat
+      + (5421010862427522170 : UInt64).toNat * 2^64 := by
+    simp only [UInt64.toNat_ofNat, Nat.reducePow, Nat.reduceMod, Nat.reduceMul, Nat.reduceAdd]
+  rw [h38]
+  exact U128_mul1e38_aux n _ _ rfl rfl
+
+
+
+/-! ## shifts -/
+
+theorem Go.shl_toNat (x : UInt64) (s : Int) :
+    (Go.shl x s).toNat = (x.toNat * 2^s.toNat) % 2^64 := by
+  simp only [Go.shl, GoShift.shl]
+  split
+  · rename_i h
+    rw [UInt64.toNat_shiftLeft, UInt64.toNat_ofNat', Nat.shiftLeft_eq]
+    have : s.toNat % 2^64 % 64 = s.toNat := by omega
+    rw [this]
+  · rename_i h
+    have h64 : 64 ≤ s.toNat := by omega
+    obtain ⟨k, hk⟩ := Nat.exists_eq_add_of_le h64
+    have e : x.toNat * 2 ^ (64 + k) = 2^64 * (x.toNat * 2^k) := by rw [Nat.pow_add]; ring
+    rw [hk, e, Nat.mul_mod_right]
+    rfl
+
+theorem Go.shr_toNat (x : UInt64) (s : Int) :
+    (Go.shr x s).toNat = x.toNat / 2^s.toNat := by
+  simp only [Go.shr, GoShift.shr]
+  split
+  · rename_i h
+    rw [UInt64.toNat_shiftRight, UInt64.toNat_ofNat', Nat.shiftRight_eq_div_pow]
+    have : s.toNat % 2^64 % 64 = s.toNat := by omega
+    rw [this]
+  · rename_i h
+    have h64 : 64 ≤ s.toNat := by omega
+    have : x.toNat < 2^s.toNat := Nat.lt_of_lt_of_le x.toNat_lt (Nat.pow_le_pow_right (by omega) h64)
+    rw [Nat.div_eq_of_lt this]; rfl
+
+/-- `|||` of a multiple of `2^k` with a number below `2^k` is their sum. -/
+theorem UInt64.toNat_or_of_disjoint (a b : UInt64) (k : Nat) (ha : a.toNat % 2^k = 0)
+    (hb : b.toNat < 2^k) : (a ||| b).toNat = a.toNat + b.toNat := by
+  rw [UInt64.toNat_or]
+  have e : a.toNat = (a.toNat / 2^k) <<< k := by
+    rw [Nat.shiftLeft_eq]; exact (Nat.div_mul_cancel (Nat.dvd_of_mod_eq_zero ha)).symm
+  rw [e, ← Nat.shiftLeft_add_eq_or_of_lt hb]
+
+theorem Nat.mul_pow_div_pow (a s : Nat) (hs : s ≤ 64) :
+    (a * 2^s) / 2^64 = a / 2^(64 - s) := by
+  have : (2:Nat)^64 = 2^(64 - s) * 2^s := by rw [← Nat.pow_add]; congr 1; omega
+  rw [this, Nat.mul_div_mul_right _ _ (Nat.two_pow_pos _)]
+
+theorem Nat.mul_pow_mod_pow (a s : Nat) (hs : s ≤ 64) :
+    (a * 2^s) % 2^64 = (a % 2^(64 - s)) * 2^s := by
+  have : (2:Nat)^64 = 2^(64 - s) * 2^s := by rw [← Nat.pow_add]; congr 1; omega
+  rw [this, Nat.mul_mod_mul_right]
+
+theorem Nat.div_pow_lt_pow (a s : Nat) (hs : s ≤ 64) (ha : a < 2^64) : a / 2^(64 - s) < 2^s := by
+  rw [Nat.div_lt_iff_lt_mul (Nat.two_pow_pos _), ← Nat.pow_add]
+  have : s + (64 - s) = 64 := by omega
+  rw [this]; exact ha
+
+theorem Go.idx_u64 (o : UInt64) : Go.idx o = (o.toNat : Int) := rfl
+
+@[simp] theorem U128_lsh_toNat (n : U128) (o : UInt64) :
+    (Gen.U128.lsh n o).toNat = (n.toNat * 2^o.toNat) % 2^128 := by
+  unfold Gen.U128.lsh
+  simp only [Id.run, pure, decide_eq_true_eq, gt_iff_lt, UInt64.lt_iff_toNat_lt]
+  have h64 : (64 : UInt64).toNat = 64 := rfl
+  have hw0 := n.w0.toNat_lt; have hw1 := n.w1.toNat_lt
+  rw [h64]
+  by_cases h : 64 < o.toNat
+  · rw [if_pos h]
+    have hsub : (o - 64).toNat = o.toNat - 64 := by
+      rw [UInt64.toNat_sub_of_le _ _ (by rw [UInt64.le_iff_toNat_le, h64]; omega), h64]
+    simp only [U128.toNat, Go.shl_toNat, Go.idx_u64, Int.toNat_natCast, hsub, UInt64.toNat_zero]
+    have e : (n.w0.toNat + n.w1.toNat * 2^64) * 2^o.toNat
+        = (n.w0.toNat * 2^(o.toNat - 64)) * 2^64 + (n.w1.toNat * 2^(o.toNat - 64)) * 2^128 := by
+      have : o.toNat = (o.toNat - 64) + 64 := by omega
+      conv_lhs => rw [this, Nat.pow_add]
+      ring
+    rw [e]
+    generalize n.w0.toNat * 2^(o.toNat - 64) = W
+    generalize n.w1.toNat * 2^(o.toNat - 64) = X
+    apply Nat.eq_mod_of_add_mul (W / 2^64 + X) <;> omega
+  · rw [if_neg h]
+    have hs : o.toNat ≤ 64 := by omega
+    have hsub : (64 - o).toNat = 64 - o.toNat := by
+      rw [UInt64.toNat_sub_of_le _ _ (by rw [UInt64.le_iff_toNat_le, h64]; omega), h64]
+    have hor : (Go.shl n.w1 (Go.idx o) ||| Go.shr n.w0 (Go.idx (64 - o))).toNat
+        = (n.w1.toNat * 2^o.toNat) % 2^64 + n.w0.toNat / 2^(64 - o.toNat) := by
+      rw [UInt64.toNat_or_of_disjoint _ _ o.toNat]
+      · simp only [Go.shl_toNat, Go.shr_toNat, Go.idx_u64, Int.toNat_natCast, hsub]
+      · simp only [Go.shl_toNat, Go.idx_u64, Int.toNat_natCast]
+        rw [Nat.mul_pow_mod_pow _ _ hs, Nat.mul_mod_left]
+      · simp only [Go.shr_toNat, Go.idx_u64, Int.toNat_natCast, hsub]
+        exact Nat.div_pow_lt_pow _ _ hs hw0
+    simp only [U128.toNat, hor]
+    simp only [Go.shl_toNat, Go.idx_u64, Int.toNat_natCast]
+    have hdiv := Nat.mul_pow_div_pow n.w0.toNat o.toNat hs
+    have hmod := Nat.mul_pow_mod_pow n.w1.toNat o.toNat hs
+    have hlt : n.w0.toNat / 2^(64 - o.toNat) < 2^o.toNat := Nat.div_pow_lt_pow _ _ hs hw0
+    have hm : (n.w1.toNat % 2^(64 - o.toNat)) * 2^o.toNat + 2^o.toNat ≤ 2^64 := by
+      have h1 : n.w1.toNat % 2^(64 - o.toNat) + 1 ≤ 2^(64 - o.toNat) :=
+        Nat.mod_lt _ (Nat.two_pow_pos _)
+      have h2 := Nat.mul_le_mul_right (2^o.toNat) h1
+      rw [← Nat.pow_add] at h2
+      have : 64 - o.toNat + o.toNat = 64 := by omega
+      rw [this] at h2
+      rw [Nat.add_mul, Nat.one_mul] at h2; exact h2
+    rw [← hmod] at hm
+    rw [← hdiv] at hlt ⊢
+    have e : (n.w0.toNat + n.w1.toNat * 2^64) * 2^o.toNat
+        = n.w0.toNat * 2^o.toNat + (n.w1.toNat * 2^o.toNat) * 2^64 := by ring
+    rw [e]
+    generalize n.w0.toNat * 2^o.toNat = W at *
+    generalize n.w1.toNat * 2^o.toNat = X at *
+    generalize 2^o.toNat = P at *
+    apply Nat.eq_mod_of_add_mul (X / 2^64) <;> omega
+
+@[simp] theorem U128_rsh_toNat (n : U128) (o : UInt64) :
+    (Gen.U128.rsh n o).toNat = n.toNat / 2^o.toNat := by
+  unfold Gen.U128.rsh
+  simp only [Id.run, pure, decide_eq_true_eq, gt_iff_lt, UInt64.lt_iff_toNat_lt]
+  have h64 : (64 : UInt64).toNat = 64 := rfl
+  have hw0 := n.w0.toNat_lt; have hw1 := n.w1.toNat_lt
+  rw [h64]
+  by_cases h : 64 < o.toNat
+  · rw [if_pos h]
+    have hsub : (o - 64).toNat = o.toNat - 64 := by
+      rw [UInt64.toNat_sub_of_le _ _ (by rw [UInt64.le_iff_toNat_le, h64]; omega), h64]
+    simp only [U128.toNat, Go.shr_toNat, Go.idx_u64, Int.toNat_natCast, hsub, UInt64.toNat_zero]
+    have e : (2:Nat)^o.toNat = 2^64 * 2^(o.toNat - 64) := by
+      rw [← Nat.pow_add]; congr 1; omega
+    rw [e, ← Nat.div_div_eq_div_mul]
+    have : (n.w0.toNat + n.w1.toNat * 2^64) / 2^64 = n.w1.toNat := by omega
+    rw [this]; omega
+  · rw [if_neg h]
+    have hs : o.toNat ≤ 64 := by omega
+    have hs' : 64 - o.toNat ≤ 64 := by omega
+    have h2 : 64 - (64 - o.toNat) = o.toNat := by omega
+    have hsub : (64 - o).toNat = 64 - o.toNat := by
+      rw [UInt64.toNat_sub_of_le _ _ (by rw [UInt64.le_iff_toNat_le, h64]; omega), h64]
+    have hor : (Go.shr n.w0 (Go.idx o) ||| Go.shl n.w1 (Go.idx (64 - o))).toNat
+        = (n.w1.toNat * 2^(64 - o.toNat)) % 2^64 + n.w0.toNat / 2^o.toNat := by
+      rw [UInt64.or_comm, UInt64.toNat_or_of_disjoint _ _ (64 - o.toNat)]
+      · simp only [Go.shl_toNat, Go.shr_toNat, Go.idx_u64, Int.toNat_natCast, hsub]
+      · simp only [Go.shl_toNat, Go.idx_u64, Int.toNat_natCast, hsub]
+        rw [Nat.mul_pow_mod_pow _ _ hs', Nat.mul_mod_left]
+      · simp only [Go.shr_toNat, Go.idx_u64, Int.toNat_natCast]
+        have := Nat.div_pow_lt_pow n.w0.toNat (64 - o.toNat) hs' hw0
+        rwa [h2] at this
+    simp only [U128.toNat, hor]
+    simp only [Go.shr_toNat, Go.idx_u64, Int.toNat_natCast]
+    have hdiv := Nat.mul_pow_div_pow n.w1.toNat (64 - o.toNat) hs'
+    rw [h2] at hdiv
+    have e : n.w0.toNat + n.w1.toNat * 2^64
+        = n.w0.toNat + (n.w1.toNat * 2^(64 - o.toNat)) * 2^o.toNat := by
+      rw [Nat.mul_assoc, ← Nat.pow_add]
+      have : 64 - o.toNat + o.toNat = 64 := by omega
+      rw [this]
+    rw [e, Nat.add_mul_div_right _ _ (Nat.two_pow_pos _), ← hdiv]
+    generalize n.w1.toNat * 2^(64 - o.toNat) = X
+    omega
+
+theorem U128_or64_w0 (n : U128) (o : UInt64) : (Gen.U128.or64 n o).w0 = n.w0 ||| o := rfl
+theorem U128_or64_w1 (n : U128) (o : UInt64) : (Gen.U128.or64 n o).w1 = n.w1 := rfl
+
+theorem U128_or64_toNat (n : U128) (o : UInt64) :
+    (Gen.U128.or64 n o).toNat = n.toNat ||| o.toNat := by
+  have ho := o.toNat_lt; have hw0 := n.w0.toNat_lt
+  have hor : (n.w0 ||| o).toNat < 2^64 := (n.w0 ||| o).toNat_lt
+  simp only [U128.toNat, U128_or64_w0, U128_or64_w1]
+  rw [Nat.add_comm, Nat.add_comm n.w0.toNat, ← Nat.shiftLeft_eq,
+    Nat.shiftLeft_add_eq_or_of_lt hor, Nat.shiftLeft_add_eq_or_of_lt hw0, UInt64.toNat_or,
+    Nat.or_assoc]
+
+/-- `or64` adds when the low bits of `n` are clear (as in `sig.lsh(64).or64(x)`). -/
+theorem U128_or64_toNat_of_disjoint (n : U128) (o : UInt64) (k : Nat)
+    (hn : n.toNat % 2^k = 0) (ho : o.toNat < 2^k) :
+    (Gen.U128.or64 n o).toNat = n.toNat + o.toNat := by
+  rw [U128_or64_toNat]
+  have e : n.toNat = (n.toNat / 2^k) <<< k := by
+    rw [Nat.shiftLeft_eq]; exact (Nat.div_mul_cancel (Nat.dvd_of_mod_eq_zero hn)).symm
+  rw [e, ← Nat.shiftLeft_add_eq_or_of_lt ho]
+
+/-! ## the table of powers of ten -/
+
+theorem uint128PowersOf10_toNat (i : Nat) (h : i < 39) :
+    (Gen.uint128PowersOf10[i]).toNat = 10^i := by
+  interval_cases i <;>
+    simp only [Gen.uint128PowersOf10, Vector.getElem_mk, List.getElem_toArray,
+      List.getElem_cons_zero, List.getElem_cons_succ, U128.toNat, UInt64.toNat_ofNat,
+      Nat.reducePow, Nat.reduceMod, Nat.reduceMul, Nat.reduceAdd]
+
+/-- indexing the table with an in-range Go index never panics. -/
+theorem uint128PowersOf10_vget (i : Int) (h0 : 0 ≤ i) (h1 : i < 39) :
+    ∃ v, Go.vget Gen.uint128PowersOf10 i = .ok v ∧ v.toNat = 10^i.toNat := by
+  have hi : i.toNat < 39 := by omega
+  refine ⟨Gen.uint128PowersOf10[i.toNat], ?_, uint128PowersOf10_toNat _ hi⟩
+  simp only [Go.vget, h0, hi, and_self, dif_pos]
+  rfl
